@@ -183,6 +183,10 @@ func scenPayouts(rep *Report, tier string, seed int64) {
 			hashes = append(hashes, hex.EncodeToString(b))
 		}
 		base := edgeU64(r) >> 1
+		// one run in twelve: the requests sum to 2^64 + d with d below the bank, so the low 64 bits
+		// of the total look like a total that fits
+		wrap := k >= 2 && bank > 0 && bank < 1<<62 && r.Intn(12) == 0
+		share := uint64(math.MaxUint64) / uint64(k+1)
 		for j := 0; j < k; j++ {
 			var amt uint64
 			switch r.Intn(5) {
@@ -196,6 +200,13 @@ func scenPayouts(rep *Report, tier string, seed int64) {
 				}
 			default:
 				amt = edgeU64(r) >> uint(1+r.Intn(20))
+			}
+			if wrap {
+				amt = share
+				if j == k-1 {
+					// 2^64 + d - (k-1)*share
+					amt = uint64(math.MaxUint64) - uint64(k-1)*share + 1 + uint64(r.Int63n(int64(bank%math.MaxInt64)+1))%bank
+				}
 			}
 			q := req{idx: j, hash: hashes[r.Intn(len(hashes))], amt: amt}
 			txid := fmt.Sprintf("%d-%s", q.idx, q.hash)
@@ -269,13 +280,14 @@ func scenPayouts(rep *Report, tier string, seed int64) {
 			rep.Disagree("payouts", fmt.Sprintf("bank=%d n=%d impl=%.80s model=%.80s", bank, len(reqs), impl, model), path)
 		}
 		// monitor: the spec of C16/C14 on the implementation's answer
-		if len(reqs) > 0 && total.IsUint64() {
-			var paid uint64
+		// (totals beyond 64 bits included: the set keeps the total as a big integer)
+		if len(reqs) > 0 {
+			paid := new(big.Int)
 			bad := ""
 			for _, q := range reqs {
 				txid := fmt.Sprintf("%d-%s", q.idx, q.hash)
 				p := pays[txid]
-				paid += p
+				paid.Add(paid, new(big.Int).SetUint64(p))
 				if !over && p != q.amt {
 					bad = "request not filled although the total fits"
 				}
@@ -287,10 +299,13 @@ func scenPayouts(rep *Report, tier string, seed int64) {
 					}
 				}
 			}
-			if over && paid != bank {
-				bad = fmt.Sprintf("total paid %d differs from the bank %d", paid, bank)
+			if over && paid.Cmp(new(big.Int).SetUint64(bank)) != 0 {
+				bad = fmt.Sprintf("total paid %v differs from the bank %d", paid, bank)
 			}
-			if !over && paid != total.Uint64() {
+			if !total.IsUint64() {
+				rep.Count("payouts:total-beyond-64-bits")
+			}
+			if !over && paid.Cmp(total) != 0 {
 				bad = "total paid differs from total requested"
 			}
 			if bad != "" {
